@@ -3,6 +3,7 @@ CONSTANTS
   Need <- NeedDef
   NProcs = {1, 2, 3}
   SharedPerChunk = FALSE
+  AnyChunking = TRUE
   OptSets <- OptsAll
   SwapOptions = FALSE
   Export = FALSE
